@@ -238,4 +238,32 @@ def Net.setLimit (n : Net) (kbps : Nat) : Net :=
       | .limited l => .limited { lim := l, holder := none, queue := [] }
     { n with objs := n.objs ++ [fresh] }
 
+/-! ### Bytes follow grants — the chunk loops of `send_file` / `receive_file` (connection.py)
+
+`send_file` puts a chunk on the wire in the step in which its tokens were granted. `receive_file` takes its
+tokens BEFORE the read (`bytes_to_read = await limiter.take_tokens(); data = await receive_data(bytes_to_read)`):
+the bytes move when the peer delivers them, possibly much later and under another limit, and a short read wastes
+the rest of the grant. Connections are numbered `0 … k-1`; `holding[c]` = tokens granted to `c` and not used yet. -/
+
+inductive XEv
+  | grant (c n : Nat)      -- connection `c` is granted `n` tokens (what was left of its previous grant is wasted)
+  | move (c m : Nat)       -- the read of connection `c` returns `m` bytes (at most what it holds moves)
+deriving Repr
+
+structure XSt where
+  holding : List Nat
+  granted : Nat            -- tokens granted so far, all connections together
+  moved : Nat              -- bytes moved so far, all connections together
+deriving Repr
+
+def xstep (s : XSt) : XEv → XSt
+  | .grant c n =>
+    if c < s.holding.length then { s with holding := s.holding.set c n, granted := s.granted + n } else s
+  | .move c m =>
+    if c < s.holding.length then
+      { s with holding := s.holding.set c 0, moved := s.moved + min m (s.holding.getD c 0) }
+    else s
+
+def xrun (s : XSt) (evs : List XEv) : XSt := evs.foldl xstep s
+
 end AioslskVerif.Rate
